@@ -20,10 +20,14 @@ RULE = ("real Router with recording devices (one of them a real generated Driver
         "distinct = hash(model state [and path, when reached by a non-shortest path], operation)")
 ASSUMPTIONS = ["which devices a client-originated message reaches is decided by C04",
                "enableBLOB from an unregistered sender is outside the quantifier"]
-REQUIRED_EVENTS = ["states", "transitions", "device_originated_messages", "deliveries_observed", "reentrant_operations", "reentrant_sends_from_inside_a_delivery", "library_client_handshake_scenarios"]
+REQUIRED_EVENTS = ["enableBLOB_without_a_policy_cases", "histories_over_padded_and_case_variant_names", "states", "transitions", "device_originated_messages", "deliveries_observed", "reentrant_operations", "reentrant_sends_from_inside_a_delivery", "library_client_handshake_scenarios"]
 EXHAUSTIVE_NOTE = "quick: universe 2 devices (A, real driver B) + catch-all x 2 clients, complete; thorough: 3 devices x 3 clients, complete"
 QUICK_SHARDS = 4
 JUDGE = "device"
+
+
+EDGE_DEVICES = ["Cam", "Cam ", " Cam", "cam", "Cam 2", "*"]
+EDGE_REAL = ("Cam ", "cam")
 
 
 def universes(ctx):
@@ -108,8 +112,110 @@ async def _handshake_scenario(ctx, k):
     await sess.close()
 
 
+BEHAVIOUR = {"Never": (1, 0), "Also": (1, 1), "Only": (0, 1)}
+INVALID_HOW = ["constructor-without-value", "constructor-value-None", "constructor-unknown-word", "constructor-empty-word", "constructor-lower-case",
+               "xml-without-value", "xml-only-white-space", "xml-unknown-word"]
+
+
+def invalid_policy_case(ctx, k):
+    """An enableBLOB that names no policy (an empty element), or a word that is none of the three, is no setting: what every
+    client receives afterwards is still decided by its most recent Never / Also / Only - for the sender and that device the default
+    (Never) is accepted too - and nobody ever ends up with a delivery pattern that is none of the three."""
+    import indi.message as M
+    from indi.routing import Client, Device, Router
+    rng = ctx.rng("invalid-policy", k)
+    router = Router()
+    got = {}
+
+    class RecC(Client):
+        def __init__(s, cid):
+            s.cid = cid
+
+        def message_from_device(s, message):
+            got.setdefault(s.cid, []).append(message)
+
+    class Dev(Device):
+        def __init__(s, name):
+            s.name = name
+
+        def accepts(s, device):
+            return device is None or device == s.name
+
+        def message_from_client(s, message):
+            pass
+
+    devs = {n: Dev(n) for n in ("CAM", "CAM2")}
+    clients = {c: RecC(c) for c in ("a", "b", "c")}
+    for d in devs.values():
+        router.register_device(d)
+    for c in clients.values():
+        router.register_client(c)
+    policy = {}
+    for c in clients:
+        for n in devs:
+            if rng.random() < 0.7:
+                policy[(c, n)] = rng.choice(X.POLICIES)
+                router.process_message(M.EnableBLOB(device=n, value=policy[(c, n)]), sender=clients[c])
+
+    def probe():
+        out = {}
+        for n, d in devs.items():
+            got.clear()
+            router.process_message(X.make_message(rng.choice(["setTextVector", "defNumberVector", "message", "delProperty"]), n), sender=d)
+            plain = {c: len(v) for c, v in got.items()}
+            got.clear()
+            router.process_message(X.make_message("setBLOBVector", n), sender=d)
+            for c in clients:
+                out[(c, n)] = (plain.get(c, 0), len(got.get(c, [])))
+        return out
+
+    how = INVALID_HOW[k % len(INVALID_HOW)]
+    who, target = rng.choice(sorted(clients)), rng.choice(sorted(devs))
+    case = {"mode": "invalid-policy", "k": k, "how": how}
+    before = probe()
+    for key, b in before.items():
+        if b != BEHAVIOUR[policy.get(key, "Never")]:
+            ctx.violate(f"policy-{policy.get(key, 'unset')}-not-honoured", f"{key}: (plain, BLOB) deliveries {b} under {policy.get(key, 'no setting')}", case)
+            return
+    msg = None
+    try:
+        if how == "constructor-without-value":
+            msg = M.EnableBLOB(device=target)
+        elif how == "constructor-value-None":
+            msg = M.EnableBLOB(device=target, value=None)
+        elif how.startswith("constructor-"):
+            msg = M.EnableBLOB(device=target, value={"unknown-word": "Sometimes", "empty-word": "", "lower-case": "also"}[how[12:]])
+        else:
+            text = {"xml-without-value": f'<enableBLOB device="{target}"/>', "xml-only-white-space": f'<enableBLOB device="{target}">  \n</enableBLOB>',
+                    "xml-unknown-word": f'<enableBLOB device="{target}">Both</enableBLOB>'}[how]
+            msg = M.IndiMessage.from_string(text)
+    except Exception:
+        ctx.count("enableBLOB_without_a_policy_refused_when_built")
+    if msg is not None:
+        ctx.count("enableBLOB_without_a_policy_accepted_when_built")
+        try:
+            router.process_message(msg, sender=clients[who])
+        except Exception:
+            ctx.count("enableBLOB_without_a_policy_refused_by_the_router")
+    after = probe()
+    ctx.count("enableBLOB_without_a_policy_cases")
+    for key, b in after.items():
+        allowed = {before[key]} | ({BEHAVIOUR["Never"]} if key == (who, target) else set())
+        if b not in allowed:
+            whom = "its-sender" if key == (who, target) else "another-client-or-device"
+            pattern = [p for p, v in BEHAVIOUR.items() if v == b]
+            ctx.violate(f"enableBLOB-without-a-policy-changes-delivery-to-{whom}:{how}:now-{pattern[0] if pattern else 'none-of-the-three'}",
+                        f"{how} from {who} for {target}: {key} received (plain, BLOB) {before[key]} before and {b} after "
+                        f"(settings: {policy.get(key, 'none')})", case)
+            return
+    ctx.case(("invalid-policy", k), nontrivial=True)
+
+
 def run(ctx):
     import asyncio
+    for k in range(160 if not ctx.thorough else 4000):
+        if ctx.mine(k):
+            invalid_policy_case(ctx, k)
     for k in range(6 if not ctx.thorough else 60):
         if ctx.mine(k):
             asyncio.run(_handshake_scenario(ctx, k))
@@ -125,6 +231,13 @@ def run(ctx):
     for i in range(nh):
         if ctx.mine(i):
             X.reactive_history(ctx, big, JUDGE, i)
+    # device names at the edge of what a name can be: the same word padded with white space, in another case, with inner blanks -
+    # each is a device of its own, and a message goes to the one that accepts exactly the name it carries
+    edge = X.Universe(EDGE_DEVICES, ["c0", "c1", "c2"], real_drivers=EDGE_REAL)
+    for i in range(nh // 3):
+        if ctx.mine(i):
+            X.random_history(ctx, edge, JUDGE, 100000 + i, 40)
+            ctx.count("histories_over_padded_and_case_variant_names")
 
 
 def exhaustive(ctx):
@@ -133,10 +246,13 @@ def exhaustive(ctx):
 
 def replay(ctx, case):
     devs, clis = case["uni"] if "uni" in case else (["A", "B", "*"], ["c0", "c1", "c2"])
-    real = ("B",) if "B" in devs else ("D1", "D3")
+    real = ("B",) if "B" in devs else EDGE_REAL if "Cam " in devs else ("D1", "D3")
     uni = X.Universe(devs, clis, real_drivers=real)
     if case.get("mode") == "reactive":
         X.reactive_history(ctx, uni, JUDGE, case["i"])
+        return
+    if case.get("mode") == "invalid-policy":
+        invalid_policy_case(ctx, case["k"])
         return
     X.replay_history(ctx, uni, JUDGE, case["history"], case["op"])
     ctx.distinct.update([1, 2])
